@@ -41,7 +41,9 @@ fn table(prop: &str) -> Option<(CountFn, GenFn, RunFn)> {
         "C01" => (c01::count, c01::gen, c01::run),
         "C02" => (c02::count, c02::gen, c02::run),
         "C03" => (c03::count, c03::gen, c03::run),
+        "C14" => (c14::count, c14::gen, c14::run),
         "C15" => (c15::count, c15::gen, c15::run),
+        "C16" => (c16::count, c16::gen, c16::run),
         _ => return None,
     })
 }
